@@ -1,0 +1,31 @@
+//go:build verif
+
+package protocol
+
+// VerifEvent is one verification trace event (build tag "verif" only).
+type VerifEvent struct {
+	Name    string // protocol name
+	Id      uint16 // protocol id
+	Role    ProtocolRole
+	Ev      string // event name
+	MsgType int
+	Len     int
+	A, B    int64
+	S1, S2  string
+	Data    []byte // message / payload bytes the event is about (not retained)
+}
+
+// VerifTracer, when set, receives the verification events of every Protocol
+// instance. It is called at the linearization points documented in /verif
+// DESIGN.md Appendix A, some of them while a Protocol mutex is held, so it must
+// not call back into the Protocol. It must be set before protocols are started.
+var VerifTracer func(p *Protocol, e VerifEvent)
+
+func (p *Protocol) verifEv(ev string, msgType int, length int, a, b int64, s1, s2 string, data []byte) {
+	if t := VerifTracer; t != nil {
+		t(p, VerifEvent{
+			Name: p.config.Name, Id: p.config.ProtocolId, Role: p.config.Role,
+			Ev: ev, MsgType: msgType, Len: length, A: a, B: b, S1: s1, S2: s2, Data: data,
+		})
+	}
+}
